@@ -55,13 +55,13 @@ type VirtualMachine struct {
 	// progress, one inside the other. They run after the frame of the function
 	// that deferred them has been given back, so that the frame table does not
 	// bound their nesting
-	deferDepth int
-	concAllowed  bool
-	runMutex     sync.Mutex
-	cloneMutex   sync.Mutex
-	tmp          [MaxArgs]object.Object
-	stack        [MaxStackDepth]object.Object
-	frames       [MaxFrameDepth]frame
+	deferDepth  int
+	concAllowed bool
+	runMutex    sync.Mutex
+	cloneMutex  sync.Mutex
+	tmp         [MaxArgs]object.Object
+	stack       [MaxStackDepth]object.Object
+	frames      [MaxFrameDepth]frame
 }
 
 // New creates a new Virtual Machine.
